@@ -159,6 +159,14 @@ def step_replay(I, vc, v):
 
 def norm_msgs(x):
     """make base64-embedded JSON comparable"""
+    if isinstance(x, str):
+        try:
+            raw = base64.b64decode(x, validate=True)
+            js = json.loads(raw.decode())
+            if isinstance(js, dict) and set(js) == {"error"}: return {"__json": {"error": "*"}}
+            return {"__json": js}
+        except Exception:
+            return x
     if isinstance(x, list): return [norm_msgs(i) for i in x]
     if isinstance(x, dict):
         out = {}
@@ -167,7 +175,9 @@ def norm_msgs(x):
             if k in ("msg", "data", "payload", "acknowledgement") and isinstance(v, str):
                 try:
                     raw = base64.b64decode(v, validate=True)
-                    out[k] = {"__json": json.loads(raw.decode())} if raw else ""
+                    js = json.loads(raw.decode()) if raw else ""
+                    if isinstance(js, dict) and set(js) == {"error"}: js = {"error": "*"}      # error texts are not modelled
+                    out[k] = {"__json": js} if raw else ""
                     continue
                 except Exception:
                     pass
